@@ -20,9 +20,10 @@ def addNVertices (k : Kernel) (n : Nat) : Kernel :=
   { k with props := resizeV k.props m, nV := m, vDel := resizeL k.vDel m false,
            outHes := if k.vBU then resizeL k.outHes m [] else k.outHes }
 
-/-- duplicate search through the vertex cache (cc:124-133) -/
+/-- duplicate search through the vertex cache (cc:124-140; since 8c92632 the match with the smallest edge index,
+    independent of the order of the incidence list) -/
 def findEdgeBU (k : Kernel) (a b : Nat) : Option Nat :=
-  ((k.outOf a).find? (fun he => k.toV he == b)).map eOf
+  (((k.outOf a).filter (fun he => k.toV he == b)).map eOf).min?
 
 /-- duplicate search by linear scan over the not-deleted edge slots (cc:135-142) -/
 def findEdgeScan (k : Kernel) (a b : Nat) : Option Nat :=
@@ -280,6 +281,11 @@ def setCell (k : Kernel) (c : Nat) (hfs : List Nat) : Kernel :=
         hfs.foldl (fun ic hf => ic.set hf (some c)) ((k.cellAt c).foldl (fun ic hf => ic.set hf none) k.incCell)
       else k.incCell,
     cells := k.cells.set c hfs }
+
+/-- number of distinct vertices met by the halfedges of the given halffaces (the `std::set<VertexHandle>` guards of the
+    tetrahedral / hexahedral `add_cell(halffaces)` overrides, 64c6d58 / 7b999c9) -/
+def spanVertCount (k : Kernel) (hfs : List Nat) : Nat :=
+  (toSet ((hfs.flatMap k.hfHes).flatMap (fun he => [k.fromV he, k.toV he]))).length
 
 end Kernel
 end OVM
